@@ -167,7 +167,9 @@ def run_case(case):
         closed_parts = [i for i, (kind, p, info) in enumerate(events, 1) if kind == "close" and p.endswith(".parquet")]
         first_complete = closed_parts[0] if closed_parts else None
         plan = []
-        ks = range(1, kmeta) if case.get("k") is None else [case["k"]]
+        # ... up to and including the open-for-write of _metadata itself: when that open fails the file is untouched,
+        # the rewrite has not started
+        ks = range(1, kmeta + 1) if case.get("k") is None else [case["k"]]
         for k in ks:
             plan.append((k, False))
             if events[k - 1][0] == "write" and (case.get("mode") in (None, "partial")):
